@@ -453,7 +453,7 @@ class Compile(Contract):
             want = U('fn.WcRegexp', U('unpack0', cp), U('unpack1', cp), Bool(has(me.F, 'REALPATH')), Bool(has(me.F, 'PATHNAME')),
                      Bool(z3.And(has(me.F, 'FOLLOW'), z3.Not(has(me.F, 'GLOBSTARLONG')))))
             return pyvc.eq(c.ret, want)
-        return [('_wcparse.compile.is_WcRegexp(compile_pattern(same_args),real=REALPATH,path=PATHNAME,follow=FOLLOW_and_not_GLOBSTARLONG)', ('C06', 'C01', 'C08', 'C04'), post)]
+        return [('_wcparse.compile.is_WcRegexp(compile_pattern(same_args),real=REALPATH,path=PATHNAME,follow=FOLLOW_and_not_GLOBSTARLONG)', ('C06', 'C01', 'C08', 'C04', 'C11'), post)]
 
 
 class CompileOne(Contract):
